@@ -15,7 +15,7 @@ RULE = (
     "the host sheet; header rows/columns 0..2; header labels absent / unique / duplicated within table, sheet or document (labels "
     "with spaces and operator characters, which force quoting). Stored reference nodes, encoded the way Numbers-authored fixtures "
     "encode them: single cell, rectangle (colon tract, both single-value and begin/end-pair relative lists), row span, column span, "
-    "whole single row/column, all absolute/relative combinations (an axis with one fixed and one relative end is stored end-before-begin in one case of three, as a range filled upwards is), to the host table and to every other table (cross-table info "
+    "whole single row/column, all absolute/relative combinations, one stored formula in three shared by a second host cell of its table and read there too (an axis with one fixed and one relative end is stored end-before-begin in one case of three, as a range filled upwards is), to the host table and to every other table (cross-table info "
     "carries the target's UUID read from the document). Hosts: body cells. Oracle: an independent resolver (vf/refresolve.py) "
     "parses the printed `[Sheet::][Table::]ref`, determines the candidate tables from the document's names only and must find "
     "exactly one reading, identical to the stored target: same table, same coordinates (relative = host + offset), '$' exactly on "
@@ -222,7 +222,44 @@ def references(draw, config):
             ref["r0"], ref["r1"] = ref["r1"], ref["r0"]
         if kind != "rows" and ref["abs"][2] != ref["abs"][3] and draw(st.integers(0, 2)) == 0:
             ref["c0"], ref["c1"] = ref["c1"], ref["c0"]
+    if draw(st.integers(0, 2)) == 0:
+        # the stored formula is shared with a second body cell of the host table (read after the first one)
+        twin = [draw(st.integers(host_t["hr"], host_t["rows"] - 1)), draw(st.integers(host_t["hc"], host_t["cols"] - 1))]
+        if twin != host:
+            ref["twin"] = twin
     return ref
+
+
+def shifted(ref, host2, config):
+    """The reading of the same stored node at another host cell of the same table (a formula key shared by several cells, as fill-down
+    produces): relative components move with the host, fixed ones stay. None when the moved target leaves its table."""
+    import copy
+
+    dr, dc = host2[0] - ref["host"][0], host2[1] - ref["host"][1]
+    tgt = config["sheets"][ref["to"][0]]["tables"][ref["to"][1]]
+    R, C = tgt["rows"], tgt["cols"]
+    r2 = copy.deepcopy({k: v for k, v in ref.items() if k != "twin"})
+    r2["host"] = list(host2)
+    k = ref["kind"]
+    if k in ("cell", "row") and not ref["row_abs"]:
+        r2["row"] += dr
+    if k in ("cell", "col") and not ref["col_abs"]:
+        r2["col"] += dc
+    if k in ("rect", "colon", "rows"):
+        r2["r0"] += 0 if ref["abs"][0] else dr
+        r2["r1"] += 0 if ref["abs"][1] else dr
+    if k in ("rect", "colon", "cols"):
+        r2["c0"] += 0 if ref["abs"][2] else dc
+        r2["c1"] += 0 if ref["abs"][3] else dc
+    rows_ = [r2[x] for x in ("row", "r0", "r1") if x in r2 and (x != "row" or k in ("cell", "row"))]
+    cols_ = [r2[x] for x in ("col", "c0", "c1") if x in r2 and (x != "col" or k in ("cell", "col"))]
+    if any(not 0 <= v < R for v in rows_) or any(not 0 <= v < C for v in cols_):
+        return None
+    if k in ("rect", "colon") and (r2["r0"], r2["c0"]) == (r2["r1"], r2["c1"]):
+        return None
+    # an axis whose ends carry the same flag keeps its order; one with mixed flags may now be stored end-first, which is fine
+    r2["_origin"] = {k_: v for k_, v in ref.items()}
+    return r2
 
 
 def nontrivial(ref):
@@ -319,6 +356,12 @@ def check_config(ctx, case):
                     model._formulas.add_table(t._table_id)
                     fid = model._formulas.lookup_key(t._table_id, TSCE.FormulaArchive(AST_node_array={"AST_node": node if isinstance(node, list) else [node]}))
                     t.cell(*ref["host"])._formula_id = fid
+                    if ref.get("twin") and (hs, ht, tuple(ref["twin"])) not in used:
+                        # the same formula key at a second cell of the table
+                        ref2 = shifted(ref, ref["twin"], config)
+                        if ref2 is not None:
+                            used[(hs, ht, tuple(ref["twin"]))] = ref2
+                            t.cell(*ref["twin"])._formula_id = fid
                 doc.save(tmp / "r.numbers")
                 return Document(tmp / "r.numbers"), list(used.values())
 
@@ -334,7 +377,7 @@ def check_config(ctx, case):
                 hs, ht = ref["host_table"]
                 cell = doc.sheets[hs].tables[ht].cell(*ref["host"])
                 # the replay case is the original configuration plus the edits that led to this phase
-                sub = {"lane": "config", "config": config, "refs": [ref], "phase": phase,
+                sub = {"lane": "config", "config": config, "refs": [ref.get("_origin") or ref], "phase": phase,
                        "edit": case.get("edit") if phase != "reopened" else None,
                        "edit_format": case.get("edit_format") if phase not in ("reopened", "after_header_edit") else None,
                        "rename": case.get("rename") if phase not in ("reopened", "after_header_edit", "after_number_label", "after_header_format") else None,
@@ -351,8 +394,10 @@ def check_config(ctx, case):
                 bad = judge(text, cfg, ref)
                 if bad is not None:
                     ctx.fail(("C09", *bad[0]), {**sub, "text": text}, f"[{phase}] host {ref['host_table']}{ref['host']}: {bad[1]}")
+                if "_origin" in ref:
+                    ctx.count("read_at_second_host_of_shared_formula")
                 if nontrivial(ref):
-                    ctx.nt((cfg, {k: v for k, v in ref.items()}))
+                    ctx.nt((cfg, {k: v for k, v in ref.items() if k != "_origin"}))
                 ctx.count("kind_" + ref["kind"])
                 ctx.count("cross_table" if ref["to"] != ref["host_table"] else "same_table")
                 if ref["kind"] in ("rect", "colon", "rows", "cols") and (ref["r0"] > ref["r1"] or ref["c0"] > ref["c1"]):
